@@ -97,6 +97,17 @@ def gen_c01_extra(ctx, thorough):
                 steps = ([{"op": "settings", "pairs": [[5, mfs]]}] if mfs != 16384 else []) + req(1) + req(3) + \
                     [finish(1, n=5, hdrs_=[["x-fill", "Z" * L]]), finish(3, n=2, hdrs_=[["x-after", "1"]])]
                 out.append({'tag': 'block-fills-frame', 'cfg': {'maxConc': 4}, 'steps': steps})
+    # (2c) request header blocks that fill the decoder's dynamic table to exactly its size (and one octet either side):
+    # the oldest entry is still there when the next request refers to it.  Entry size = name + value + 32 (RFC 7541 4.1);
+    # the peer's encoder (x/net) inserts every field it cannot find whole in a table.
+    base = 40 + 48 + 38          # ":path /s1", ":authority ex.com", "x-sid 1" as inserted by the first request
+    for delta in (-1, 0, 1):
+        fill = [["x-fill-%03d-abcdefg" % i, "v" * 14] for i in range(61)]            # 61 entries of 18 + 14 + 32 = 64
+        last = 4096 - base - 61 * 64 + delta                                        # what is left for one more entry
+        fill.append(["x-pad", "p" * (last - 5 - 32)])
+        second = [[":method", "GET"], [":scheme", "https"], [":path", "/s1"], [":authority", "ex.com"], ["x-sid", "3"], fill[0], fill[30]]
+        steps = req(1, extra=fill) + [finish(1, n=1), {"op": "hdr", "sid": 3, "fields": second, "es": True, "pad": -1}, finish(3, n=1)] + req(5) + [finish(5, n=1)]
+        out.append({'tag': 'table-exact-fill', 'cfg': {'maxConc': 4, 'maxHdr': 16384}, 'steps': steps})
     # (3) request bodies: chunkings, padding, empty DATA frames, multi-frame
     for body, chunks in ((1, None), (100, [0, 40, 0, 60]), (100, [100, 0]), (20000, [16000, 4000]), (40000, [16000, 16000, 8000]), (5, [1, 1, 1, 1, 1])):
         for pad in (-1, 0, 5):
@@ -343,6 +354,12 @@ def gen_c09_extra(ctx, thorough):
         wrap('body-actual', req(3, body=3000, extra=[dyn(k)], chunks=[600, 600, 600, 600, 600]), cfg={'maxBody': 1000}, k=k)
         # (c) refused stream over the limit (two handlers running + one more), with inserts, block split
         wrap('refused', req(3, extra=[["x-o", "1"]]) + req(5, extra=[["x-o", "2"]]) + req(7, extra=[dyn(k)], split=[30]) + [finish(3), finish(5)], k=k)
+        # (c2) a refused stream whose peer had more in flight for it: body DATA, trailers, its own RST_STREAM, a WINDOW_UPDATE
+        for tail in ([{"op": "data", "sid": 7, "n": 20, "es": True, "pad": -1}],
+                     [{"op": "data", "sid": 7, "n": 20, "es": False, "pad": 3}, {"op": "hdr", "sid": 7, "fields": [["x-t", "1"]], "es": True, "pad": -1}],
+                     [{"op": "rst", "sid": 7, "code": 8}], [{"op": "wu", "sid": 7, "inc": 10}, {"op": "rst", "sid": 7, "code": 8}]):
+            wrap('refused-inflight', req(3, extra=[["x-o", "1"]]) + req(5, extra=[["x-o", "2"]]) +
+                 [{"op": "hdr", "sid": 7, "fields": hdrs(7, "POST", [dyn(k)]), "es": False, "pad": -1}] + [dict(t) for t in tail] + [finish(3), finish(5)], k=k)
         # (d) peer RST at each life stage
         wrap('rst-after-headers', [{"op": "hdr", "sid": 3, "fields": hdrs(3, "POST", [dyn(k)]), "es": False, "pad": -1}, {"op": "rst", "sid": 3, "code": 8}], k=k)
         wrap('rst-mid-body', req(3, body=50, extra=[dyn(k)])[:2] + [{"op": "rst", "sid": 3, "code": 8}] if False else
